@@ -96,13 +96,19 @@ def main(argv=None):
     lost = []
     if not a.only and key in ledger:
         lost = [i for i in ledger[key] if i not in bytask]
+        # an obligation that is a proof in the ledger must still complete as a proof
+        for r in results:
+            if r["id"] in ledger[key] and r.get("status") == "partial":
+                r["status"] = "undecided"
+                r["reason"] = "ledger obligation no longer completes within its budget: " + str(r.get("reason"))
 
-    violations, undecided, errors = [], [], []
+    violations, undecided, errors, partial, unproved = [], [], [], [], []
     n_proof = n_disch = n_bounded = 0
     evals = distinct = 0
     by_solver_s = 0.0
     paths = vcs = 0
     samples = []
+    ext_vcs = {}
     known_used = set()
     sources = {}
     for r in results:
@@ -110,11 +116,32 @@ def main(argv=None):
         sources.update(r.get("sources", {}))
         known_used |= set(r.get("known_used", []))
         st = r.get("status")
+        if t["kind"] == "proof" and st == "unproved":
+            unproved.append({"obligation": r["id"], "paths_explored": r.get("paths", 0), "reason": r.get("reason"),
+                             "sample": (r.get("spurious") or [{}])[0].get("replay")})
+            if r["id"] in ledger.get(key, []) and not a.only:
+                # it WAS a proof on the unchanged tree and now fails: report, although no input reproduces
+                f = (r.get("spurious") or [{}])[0]
+                payload = {"property": a.prop, "obligation": r["id"], "failed_clause": f.get("label"), "failure": f,
+                           "task": t, "replay_spec": t.get("replay"), "native_replay": f.get("replay"),
+                           "verifier_output": {k: r.get(k) for k in ("status", "paths", "vcs", "reason", "n_spurious")}}
+                path = common.write_replay(a.prop, r["id"] + "__" + str(f.get("label", "")), payload)
+                violations.append((r["id"], f, {"reproduced": False, "text": (f.get("replay") or {}).get("text")}, path))
+            continue
+        if t["kind"] == "proof" and st == "partial":
+            # exploration hit its budget without a failure: a bounded result, never counted as proved
+            partial.append({"obligation": r["id"], "paths_explored": r.get("paths", 0), "vcs_discharged": r.get("vcs", 0),
+                            "reason": r.get("reason")})
+            evals += r.get("paths", 0)
+            distinct += r.get("paths", 0)
+            continue
         if t["kind"] == "proof":
             n_proof += 1
             paths += r.get("paths", 0)
             vcs += r.get("vcs", 0)
             by_solver_s += r.get("solver_s", 0)
+            for k, v in (r.get("ext_discharged") or {}).items():
+                ext_vcs[k] = ext_vcs.get(k, 0) + v
             if st == "discharged":
                 n_disch += 1
         else:
@@ -128,8 +155,8 @@ def main(argv=None):
             continue
         if st == "violated":
             for f in (r.get("failures") or [{}])[:3]:
-                rep = {"reproduced": False, "text": "no native reproducer for this obligation"}
-                if t.get("replay"):
+                rep = f.get("replay") or {"reproduced": False, "text": "no native reproducer for this obligation"}
+                if t.get("replay") and not f.get("replay"):
                     rep = _call_replay(t["replay"], t, f)
                 payload = {"property": a.prop, "obligation": r["id"], "failed_clause": f.get("label"),
                            "failure": f, "task": t, "replay_spec": t.get("replay"), "native_replay": rep,
@@ -176,7 +203,11 @@ def main(argv=None):
         rc = 3
 
     if a.write_ledger and rc == 0 and not a.only:
-        ledger[key] = sorted(r["id"] for r in results if r.get("status") in ("discharged", "ok"))
+        # only obligations that finish well inside their budget are *required* to stay proofs (so that a
+        # busy machine cannot flip the verdict); slower ones are still reported when they complete
+        lim = 45 if a.tier == "quick" else 600
+        ledger[key] = sorted(r["id"] for r in results if r.get("status") in ("discharged", "ok") and r.get("task_wall_s", 0) <= lim)
+        print(f"ledger written: {len(ledger[key])} obligations")
         json.dump(ledger, open(ledger_path, "w"), indent=0, sort_keys=True)
 
     wall = time.time() - t0
@@ -185,11 +216,13 @@ def main(argv=None):
         "checker_cmd": f"./check {a.prop} --tier {a.tier}",
         "trusted_base": list(getattr(P, "TRUSTED", [])),
         "paths": paths, "verification_conditions": vcs, "solver_s": round(by_solver_s, 2),
-        "by_backend": {"z3-4.13 (python API)": n_disch},
+        "by_backend": {"z3-4.13 (python API), obligations": n_disch, "VCs z3 4.13 left open that were discharged by": ext_vcs},
         "bounded_tasks": n_bounded, "evaluations": evals, "distinct_nontrivial": distinct,
         "rule": getattr(P, "RULE", ""),
         "explanation": getattr(P, "EXPLANATION", ""),
         "undecided": len(undecided) + len(lost), "checker_errors": len(errors),
+        "partial_explorations_bounded_not_proved": partial,
+        "unproved_contract_too_weak": unproved,
         "functions_under_contract": sorted(getattr(P, "FUNCTIONS", [])),
         "source_sha256": sources,
         "known_findings_matched": kf_lines, "known_exclusions_used": sorted(known_used),
@@ -201,7 +234,7 @@ def main(argv=None):
         cov.pop("evaluations"); cov.pop("distinct_nontrivial")
     common.write_evidence(a.prop, a.tier, P.LEVEL, cov, list(getattr(P, "ASSUMPTIONS", [])), wall,
                           len(violations), seed)
-    print(f"[{a.prop}] proof obligations {n_disch}/{n_proof} discharged, bounded tasks {n_bounded}, "
+    print(f"[{a.prop}] proof obligations {n_disch}/{n_proof} discharged, partial (bounded) {len(partial)}, unproved {len(unproved)}, bounded tasks {n_bounded}, "
           f"violations {len(violations)}, undecided {len(undecided)+len(lost)}, errors {len(errors)}, {wall:.1f}s -> exit {rc}")
     return rc
 
